@@ -138,13 +138,5 @@ pub mod l2 {
 //@include level.in LOWER=l1
 }
 
-/// std.removeAt / std.remove are `extended(arr[:at], arr[at+1:])`: the builtin's text over the level types
-pub mod remove {
-    use crate::error::*;
-    use crate::l1::{Out as ArrValue, Views as _};
-    use crate::l2::Views as _;
-    //@extract crates/jrsonnet-stdlib/src/arrays.rs :: fn builtin_remove_at || s/arr: ArrValue/arr: crate::l0::Out/1 || s/Result<ArrValue>/Result<crate::l2::Out>/1
-}
-
 #[cfg(kani)]
 mod harnesses;
